@@ -321,16 +321,19 @@ pub fn plan(p: u32, tier: &str) -> Vec<Run> {
             // input changes: its consumers' link records then differ from its own record in text only
             let mut xi = noise("S3D2-ignore-exacteph+follow", 2, true, false);
             xi.cmp = Cmp::ExactEph;
-            add(xi, families::slots_ignore(3));
+            // (only the kind vectors with an Ephemeral: the comparison treats all others alike)
+            add(xi, families::slots_ignore(3).into_iter().filter(|u| u.label.split(':').nth(1).unwrap_or("").contains('E')).collect());
             let mut pr = noise("S3D2-prod+follow", 2, true, false);
             pr.cmp = Cmp::Prod;
             pr.conv = Conv::Parts;
             add(pr, families::slots(3));
             add(deep3("S3D4-ff", 4, vec![false; 4]), families::slots(3));
             add(deep3("S3D3-f010", 3, vec![false, true, false]), families::slots(3));
-            let mut d43 = deep3("S4D3-k1-ff", 3, vec![false; 3]);
-            d43.edit_bound = Some(1);
-            add(d43, families::slots(4));
+            if thorough {
+                let mut d43 = deep3("S4D3-k1-ff", 3, vec![false; 3]);
+                d43.edit_bound = Some(1);
+                add(d43, families::slots(4));
+            }
             if p == 4 {
                 let mut ig = s("S3D2-ignore", 2, m);
                 ig.faults = vec![true, false];
